@@ -217,6 +217,21 @@ def oracle_pipeline(case, ctx):
         f2 = pools.build_forecaster(spec)
         f2.fit(y0.copy(), None, fh_obj(case, cutoff))
         discs += same(sut(f2.transform, y0.copy()), zt, "pipeline_transform", desc)
+    if not discs and case.get("shared_steps"):
+        # two pipelines made from the same list of steps (one configuration, two series): each
+        # fits its own copies, so fitting the second leaves the first one's forecasts alone
+        from sktime.forecasting.compose import TransformedTargetForecaster
+
+        ctx.label("steps_list_shared_by_two_pipelines")
+        steps = list(pools.build_forecaster(spec).steps)
+        A = TransformedTargetForecaster(steps)
+        ra = sut(A.fit, y0.copy(), None, fh_obj(case, cutoff))
+        pa = sut(A.predict) if not isinstance(ra, Raised) else ra
+        if not isinstance(pa, Raised):
+            B = TransformedTargetForecaster(steps)
+            y1 = pd.Series(y0.to_numpy()[::-1] * 1.5 + 2.0, index=y0.index)
+            sut(B.fit, y1, None, fh_obj(case, cutoff))
+            discs += same(sut(A.predict), pa, "pipeline_predict_after_other_pipeline_was_fitted", desc)
     return discs
 
 
@@ -498,6 +513,7 @@ def pipeline_cases(draw, boxcox=True):
     c = draw(base_case(spec, min_extra=4))
     if pools.needs_fh_in_fit(inner) and c["fh_mode"] == "abs":
         c["updates"] = []
+    c["shared_steps"] = draw(st.integers(0, 2)) == 0
     return c
 
 
